@@ -43,10 +43,13 @@ def classify(formula, lines, i):
         f = os.path.basename(loc.split(":")[0])
         return f"C09_NoPanic:{f}:{norm_msg(cur['panic']['msg'])}@{kind}"
     extra = ""
-    if formula == "C05_NoOverbook" and kind == "W2S:Update[Finished,RunningPrefilled]" and prev is not None:
-        fin = cur["args"]["m"]["ups"][0]["t"]
-        if fin not in tasks_of(prev):
-            extra = "/handover-after-release"
+    if formula == "C05_NoOverbook" and kind.startswith("W2S:Update[") and "RunningPrefilled" in kind:
+        # the reservation of a canceled/aborted running task was released when the cancel was issued,
+        # later the worker hands the resources of that task over to a pre-sent task
+        w = cur["args"]["w"]
+        if any(x["ch"] == "s2w" and x["w"] == w and x["m"]["k"] == "Cancel" for ln in lines[:i] for x in ln.get("sent", [])):
+            kind = "W2S:Update[..RunningPrefilled..]"
+            extra = "/handover-after-cancel-release"
     if formula in ("C03_NoEarlyStart", "C03_NeverStartedAfterFailedDep", "C03_PropagateAtRest"):
         # was the offending dependent submitted after its dependency was already failed/cancelled ?
         if late_dependent(lines, i):
